@@ -305,6 +305,8 @@ func coqCase(id int, in input, delta int64, steps []step) string {
 
 var twoKindsFail = flag.Bool("two-kinds-as-failure", false, "report the per-kind spacing of the two-kinds reconciler queue as an oracle failure (key C13/queue/reconciler/two-kinds-spacing)")
 
+var replayRealTime bool
+
 func main() {
 	o := hx.Parse()
 	rng := o.Rng()
@@ -315,10 +317,13 @@ func main() {
 	var qinputs []qinput
 	if o.Replay != "" {
 		var probe struct {
-			Gaps []int64 `json:"gaps_ns"`
+			Gaps     []int64 `json:"gaps_ns"`
+			RealTime bool    `json:"realtime"`
 		}
 		hx.ReadReplay(o.Replay, &probe)
-		if probe.Gaps != nil {
+		if probe.RealTime {
+			replayRealTime = true // the real-time scenarios are fixed: run them all again
+		} else if probe.Gaps != nil {
 			var qin qinput
 			hx.ReadReplay(o.Replay, &qin)
 			qinputs = append(qinputs, qin)
@@ -353,6 +358,10 @@ func main() {
 		}
 		for i := 0; i < nq; i++ {
 			qinputs = append(qinputs, genQueue(rng))
+		}
+		qinputs = append(qinputs, wcorpus()...)
+		for i := 0; i < nq/2; i++ {
+			qinputs = append(qinputs, genWrapper(rng))
 		}
 	}
 
@@ -400,15 +409,42 @@ func main() {
 			cw.Add(func(id int) string { return coqCase(id, run, delta, steps) }, run)
 		}
 	}
+	// the untouched wrapper in real time (short, lenient); run before the virtual-time cases,
+	// whose synchronisation looks at every worker goroutine of the process; its failures are
+	// reported after theirs (which are deterministic and replayable step by step)
+	var rts []rtResult
+	if o.Replay == "" || replayRealTime {
+		rts = realTimeWrapper()
+		res.Extra["wrapper_real_time_scenarios"] = rts
+	}
+
 	// queue scenarios: real limiter + real client-go queue on a fake clock
 	twoKindsShort, twoKindsRuns := 0, 0
 	var twoKindsSample interface{}
 	for _, qin := range qinputs {
-		r := runQueue(qin)
+		var r *qrun
+		if qin.Wrapper {
+			r = runWrapper(qin)
+		} else {
+			r = runQueue(qin)
+		}
 		md := maxDur(qin)
 		nontrivial := len(r.runs) >= 2
 		res.Seen(fmt.Sprint(qin), nontrivial)
-		res.Count("queue kind=" + qin.Kind + fmt.Sprintf(" items=%d", qin.Items))
+		if qin.Wrapper {
+			res.Count("wrapper (WorkQueue.New/Start/Add/process) kind=" + qin.Kind + fmt.Sprintf(" items=%d", qin.Items))
+			fails := 0
+			for _, e := range r.events {
+				if e.Ev == "arrive" {
+					fails++
+				}
+			}
+			if fails > len(qin.Gaps) {
+				res.Count("wrapper: a callback failed and was re-queued")
+			}
+		} else {
+			res.Count("queue kind=" + qin.Kind + fmt.Sprintf(" items=%d", qin.Items))
+		}
 		if md >= r.delta {
 			res.Count("queue callbacks >= interval")
 		} else {
@@ -423,7 +459,12 @@ func main() {
 			res.Count("queue stuck")
 		}
 		res.OracleChecks++
-		if r.stuck == "" {
+		if qin.Wrapper {
+			if k, what := woracle(r, md); k != "" {
+				res.Count("oracle_fail_wrapper_" + k)
+				res.Fail(hx.Failure{Key: "C13/wrapper/" + qin.Kind + "/" + k, What: what, Input: qin, Observed: map[string]interface{}{"adds(item,instant)": r.adds, "callback_starts(item,instant)": r.runs, "events": r.events}})
+			}
+		} else if r.stuck == "" {
 			if k, what := qoracle(r, md); k != "" {
 				res.Count("oracle_fail_queue_" + k)
 				res.Fail(hx.Failure{Key: "C13/queue/" + qin.Kind + "/" + k, What: what, Input: qin, Observed: map[string]interface{}{"runs": r.runs, "grants": r.grants}})
@@ -451,6 +492,13 @@ func main() {
 		if !o.Search {
 			r, md := r, md
 			cw.Add(func(id int) string { return coqQCase(id, r, md) }, qin)
+		}
+	}
+	for _, rt := range rts {
+		res.OracleChecks++
+		res.Count("wrapper real-time scenario")
+		if rt.Problem != "" {
+			res.Fail(hx.Failure{Key: "C13/wrapper-realtime/" + rt.Key, What: rt.Scenario.Name + ": " + rt.Problem, Input: map[string]interface{}{"realtime": true, "scenario": rt.Scenario}, Observed: rt.Starts})
 		}
 	}
 	cw.Flush()
